@@ -22,7 +22,12 @@ type ReportFields struct {
 	Ask                *big.Int
 }
 
-var zero = big.NewInt(0)
+var (
+	zero       = big.NewInt(0)
+	maxInt192  = new(big.Int).Sub(new(big.Int).Lsh(big.NewInt(1), 191), big.NewInt(1))
+	minInt192  = new(big.Int).Neg(new(big.Int).Lsh(big.NewInt(1), 191))
+	maxUint192 = new(big.Int).Sub(new(big.Int).Lsh(big.NewInt(1), 192), big.NewInt(1))
+)
 
 type ReportCodec struct {
 	logger logger.Logger
@@ -53,6 +58,22 @@ func (r *ReportCodec) BuildReport(rf ReportFields) (ocrtypes.Report, error) {
 		merr = errors.Join(merr, errors.New("nativeFee may not be nil"))
 	} else if rf.NativeFee.Cmp(zero) < 0 {
 		merr = errors.Join(merr, fmt.Errorf("nativeFee may not be negative (got: %s)", rf.NativeFee))
+	}
+	for _, c := range []struct {
+		name string
+		v    *big.Int
+	}{{"benchmarkPrice", rf.BenchmarkPrice}, {"bid", rf.Bid}, {"ask", rf.Ask}} {
+		if c.v != nil && (c.v.Cmp(minInt192) < 0 || c.v.Cmp(maxInt192) > 0) {
+			merr = errors.Join(merr, fmt.Errorf("%s does not fit into int192 (got: %s)", c.name, c.v))
+		}
+	}
+	for _, c := range []struct {
+		name string
+		v    *big.Int
+	}{{"linkFee", rf.LinkFee}, {"nativeFee", rf.NativeFee}} {
+		if c.v != nil && c.v.Cmp(maxUint192) > 0 {
+			merr = errors.Join(merr, fmt.Errorf("%s does not fit into uint192 (got: %s)", c.name, c.v))
+		}
 	}
 	if merr != nil {
 		return nil, merr
